@@ -3,7 +3,7 @@ from lib import core
 from props import C02
 
 LEVEL = 'other'
-BBH_FEATURES = ['prover', 'oracle']      # harness command families this check needs (fallback build, lib/core.py build_bbh)
+BBH_FEATURES = ['prover', 'oracle', 'py']      # harness command families this check needs (fallback build, lib/core.py build_bbh)
 
 
 def parse_tape(tp):
@@ -228,6 +228,9 @@ def run(rep, tier, seed):
             nf14 += 1
             if nf14 <= 4:
                 rep.known_finding(f14_text(fl))
+    f14_aids = {fl[0] for fl in flags if fl[0].split('.')[0] not in diverging}
+    # the whole-application replay of such an application fails too (part b): same finding, reported once
+    fails = [f for f in fails if f[0] not in f14_aids]
     if nf14:
         kf = [f for f in core.known_findings()['open'] if f['id'] == 'F14'][0]
         rep.known_finding(f'F14 class ({kf["site"]}): {nf14} rule applications in this run whose final application is not a run of '
